@@ -32,6 +32,7 @@ CLASSES = {
     "OggTheora": "mutagen.oggtheora.OggTheora", "OggFLAC": "mutagen.oggflac.OggFLAC",
     "FLAC": "mutagen.flac.FLAC", "ASF": "mutagen.asf.ASF", "MP4": "mutagen.mp4.MP4", "AAC": "mutagen.aac.AAC", "AC3": "mutagen.ac3.AC3",
     "AIFF": "mutagen.aiff.AIFF", "DSDIFF": "mutagen.dsdiff.DSDIFF", "WAVE": "mutagen.wave.WAVE", "DSF": "mutagen.dsf.DSF",
+    "SMF": "mutagen.smf.SMF",
 }
 ID3_KINDS = ("MP3", "TrueAudio", "AIFF", "WAVE", "DSF", "DSDIFF")
 APE_KINDS = ("WavPack", "Musepack", "MonkeysAudio", "OptimFROG", "TAK")
@@ -229,8 +230,6 @@ def inputs(ctx):
     out = []
     bases = {}
     for fmt in F.FORMATS:
-        if fmt.kind == "SMF":
-            continue
         for s in fmt.samples:
             d = F.sample_bytes(ctx.repo, s)
             if len(d) > MAXLEN:
@@ -414,9 +413,6 @@ def run(ctx):
             continue
         m = model[len(lines) + j]
         st, fld = parse_fields(m)
-        if fld.get("pick") == "SMF":
-            ctx.hist["File:SMF-not-modelled"] += 1
-            continue
         ctx.traces_validated += 1
         if fld.get("pick") == "MP4" and st == "ok" and real == "err:mutagen" and b"chpl" in data:
             ctx.hist["MP4:chapters-not-modelled"] += 1
